@@ -132,11 +132,16 @@ class ArrayMap(Map):
                 for k, v in cls.__dict__.items():
                     if isinstance(v, ArrayGlobalVarDesc) and v.map is self \
                             and k not in unique:
-                        collection.append((fmtsize(v.fmt), prog, k))
+                        # multi-element formats are aligned by their
+                        # largest element, not by their total size
+                        align = max((fmtsize(c) for c in v.fmt
+                                     if c.isalpha()), default=1) \
+                            if isinstance(v.fmt, str) else 1
+                        collection.append((align, fmtsize(v.fmt), prog, k))
                         unique.add(k)
-        collection.sort(key=lambda t: t[0], reverse=True)
+        collection.sort(key=lambda t: t[:2], reverse=True)
         position = 0
-        for size, prog, name in collection:
+        for align, size, prog, name in collection:
             prog.__dict__[name] = position
             position += size
         position = ((position + 7) // 8) * 8
